@@ -18,13 +18,13 @@ draw count), ``draw_accounting`` (normal numbers inferred from single steps), ``
 ``zero_noise_numba_jit`` (small compiled sample), ``tiny_variance`` (variances below 1e-14 on tiny
 cells; were treated as zero before fix 2992ecc), ``numba_components_independent`` (numba backend: the
 normal numbers inferred from one step are not the same realization for two components / fields; the
-draws themselves cannot be compared with a reference there), ``noise_dict_reused`` (several equations
-built from ONE shared ``noise`` dict / list / array object each add the documented increment).
+draws themselves cannot be compared with a reference there) and ``numba_components_independent_jit``
+(small compiled sample), ``noise_dict_reused`` (several equations built from ONE shared ``noise``
+dict / list / array object each add the documented increment).
 """
 
 from __future__ import annotations
 
-import copy
 import math
 
 import numpy as np
@@ -477,7 +477,7 @@ def run_solve(eq, state, case, t_start, steps, backend="numpy"):
 class Model:
     """reference model of one trajectory"""
 
-    def __init__(self, case):
+    def __init__(self, case, eq_rate=None):
         self.case = case
         self.grid = gg.build_grid(case["grid"])
         self.V = ref_cell_volumes(case["grid"])
@@ -486,7 +486,8 @@ class Model:
         self.s2 = variance_full(case, self.grid)
         self.alpha = ALPHA[case["interp"]]
         self.ref_rng = make_rng(case, reference=True)
-        self.eq_rate = make_equation(case, gg.build_grid(case["grid"]), rng=0, noise_on=False)
+        # deterministic twin on its own grid; may be shared between models of the same specification
+        self.eq_rate = eq_rate or make_equation(case, gg.build_grid(case["grid"]), rng=0, noise_on=False)
         self.template = make_state(self.grid, case)
         self.scale = 0.0
 
@@ -557,9 +558,9 @@ def check_explicit(case):
     return judge_explicit(case, grid, make_equation(case, grid, make_rng(case)))
 
 
-def judge_explicit(case, grid, eq):
+def judge_explicit(case, grid, eq, eq_rate=None):
     """n-step run of the given equation (built for ``case`` on ``grid``) against the reference recursion"""
-    model = Model(case)
+    model = Model(case, eq_rate=eq_rate)
     state = make_state(grid, case)
     if not eq.is_sde:
         raise Violation(f"equation with variances {case['noise']['values']} reports is_sde=False",
@@ -860,7 +861,8 @@ VAR_FACTORS = [1.0, 0.5, 2.0, 0.25, 1.0]
 
 
 @st.composite
-def independent_cases(draw, solvers=("euler", "milstein", "implicit"), families=("harness", "harness", "pde")):
+def independent_cases(draw, solvers=("euler", "milstein", "implicit"), families=("harness", "harness", "pde"),
+                      max_n=3):
     """multi-component states (vector, tensor, collection of 2-3 fields) on grids with >= 3 cells, additive noise
     with non-zero variance for every component, purely local or Laplacian-coupled linear rate"""
     case = draw(sde_cases(solvers=solvers, families=families, linear_only=True, theta_max=0.3, s_lo=0.03,
@@ -882,15 +884,25 @@ def independent_cases(draw, solvers=("euler", "milstein", "implicit"), families=
         eq.update(D=0.0, kind="const", numba=True)
         if draw(st.integers(0, 3)) == 0:  # equation without deterministic part
             eq.update(a=0.0, b=0.0)
+        if sum(dim**r for r in ranks) < 2:  # a vector / tensor on a 1d grid has a single component
+            skind, ranks = "collection", [ranks[0], 0]
+            layout = draw(st.sampled_from(["scalar", "per_field"]))
+            count = 2 if layout == "per_field" else 1
         case["state"].update(kind=skind, ranks=ranks)
         case["noise"].update(kind="const", layout=layout)
     else:
+        if sum(dim**r for r in case["state"]["ranks"]) < 2:  # ditto: add an uncoupled scalar field
+            eq["rhs"] = dict(eq["rhs"], s=f"-{eq['k']} * s + 1")
+            case["state"].update(kind="collection", ranks=[case["state"]["ranks"][0], 0])
+            if eq["noise_as"] != "scalar":
+                case["noise"].update(layout="per_field", values=[v, v])
         count = len(case["noise"]["values"])
     # all variances positive (every component is judged), different per component / field
     factors = draw(st.lists(st.sampled_from(VAR_FACTORS), min_size=count, max_size=count))
     case["noise"]["values"] = [float(v * f) for f in factors]
     if case["solver"] == "implicit":
         case["maxerror"] = draw(st.sampled_from([1e-12, 1e-13]))  # the iteration error stays far below the noise
+    case["n"] = min(case["n"], max_n)  # every step is a separate solve (a new stepper)
     case["backend"] = "numba"
     return case
 
@@ -950,7 +962,7 @@ def check_components_independent(case):
         for a in range(len(xi)):
             if not well[a]:
                 continue
-            if float(np.max(np.abs(xi[a]))) == 0.0:
+            if float(np.max(np.abs(xi[a]))) <= float(np.max(cond[a])):  # |N(0,1)| <= 1e-8 in all cells: P < 1e-24
                 raise Violation(
                     f"[{backend}] {case['solver']} step {i}: component {a} with variance > 0 "
                     f"(standard deviation {amp.reshape(xi.shape)[a].max():.3g}) received no noise at all",
@@ -964,14 +976,14 @@ def check_components_independent(case):
                     raise Violation(
                         f"[{backend}] {case['solver']} step {i}, state {case['state']['kind']} ranks "
                         f"{case['state']['ranks']} on {ncell} cells: components {a} and {b} of the state data received "
-                        f"the SAME normal numbers (inferred xi differ by at most {d:.3g}; e.g. {xi[a].flat[0]!r} and "
-                        f"{xi[b].flat[0]!r} in the first cell) - every cell and component must get its own draw",
+                        f"the SAME normal numbers (inferred xi differ by at most {d:.3g}; e.g. {float(xi[a].flat[0])!r} "
+                        f"and {float(xi[b].flat[0])!r} in the first cell) - every cell and component must get its own draw",
                         key=f"independent:{backend}:{case['solver']}:{case['state']['kind']}:same-realization")
-            if previous is not None and float(np.max(np.abs(xi[a] - previous[a]))) <= 1e-6:
+            if previous is not None and previous[1][a] and float(np.max(np.abs(xi[a] - previous[0][a]))) <= 1e-6:
                 raise Violation(
                     f"[{backend}] {case['solver']}: component {a} received the same normal numbers in steps {i - 1} "
                     f"and {i}", key=f"independent:{backend}:{case['solver']}:{case['state']['kind']}:same-in-two-steps")
-        previous = xi
+        previous = (xi, well)
         cur = new
     labs.append("pairs>0" if pairs else "pairs=0")
     labs.append(f"components:{min(len(xi), 9)}")
@@ -1015,12 +1027,13 @@ def check_noise_reuse(case):
     elif case["share_rhs"] and eqc["family"] == "rd" and not any(e["as_pde"] for e in case["eqs"]):
         rhs_shared = dict(eqc["sources"])
     labs = []
+    eq_rate = make_equation(case, gg.build_grid(case["grid"]), rng=0, noise_on=False)  # deterministic twin (noise=0)
     for k, e in enumerate(case["eqs"]):
         sub = dict(case, solver=e["solver"], rng=e["rng"])
         cls = "PDE" if e["as_pde"] else "ReactionDiffusionPDE"
         eq = make_equation(sub, grid, make_rng(sub), noise_obj=shared, rhs_obj=rhs_shared, as_pde=e["as_pde"])
         try:
-            rec = judge_explicit(sub, grid, eq)
+            rec = judge_explicit(sub, grid, eq, eq_rate=eq_rate)
         except Violation as v:
             what = (v.key or "").rsplit(":", 1)[-1]
             raise Violation(
@@ -1070,7 +1083,10 @@ SUBCHECKS = [
     _sub("numba_components_independent", independent_cases, check_components_independent, 150, 2000, (1, 2),
          rule="numba backend interpreted (the shape of the draw is fixed in python-level code); non-trivial = at "
               "least one pair of well-conditioned components / fields compared"),
-    _sub("noise_dict_reused", reuse_cases, check_noise_reuse, 200, 3000, (1, 1), mode="pure",
+    _sub("numba_components_independent_jit", lambda: independent_cases(families=("harness",), max_n=2),
+         check_components_independent, 2, 30, (1, 2), mode="jit", tl={"quick": 100, "thorough": 1200},
+         rule="numba backend compiled (tiny sample, harness equation without operators)"),
+    _sub("noise_dict_reused", reuse_cases, check_noise_reuse, 120, 2000, (2, 2),
          rule="2-3 equations (PDE / ReactionDiffusionPDE) from one shared noise dict / list / array object, numpy "
               "backend; every case is non-trivial"),
 ]
